@@ -17,12 +17,13 @@ TOL = 1e-9
 EDGES = (0.5, 1.0, 2.5, 20.0)
 QUICK_ORTHO = ([list(e) for e in itertools.product((0.5, 2.5), repeat=3)] +
                [[1.0, 1.0, 1.0], [20.0, 20.0, 20.0], [0.5, 1.0, 20.0], [20.0, 0.5, 1.0],
-                [1.0, 20.0, 0.5], [20.0, 1.0, 2.5], [2.5, 20.0, 1.0], [1.0, 2.5, 20.0]])
+                [1.0, 20.0, 0.5], [20.0, 1.0, 2.5], [2.5, 20.0, 1.0], [1.0, 2.5, 20.0], [4.0, 1.0, 6.0]])
 TRICLINIC = [
     [[2.0, 0.0, 0.0], [0.5, 2.0, 0.0], [0.3, -0.4, 2.5]],            # lower triangular (GROMACS form)
     [[3.0, 0.0, 0.0], [0.0, 3.0, 0.0], [1.5, 1.5, 2.1213]],          # dodecahedron-like
     [[0.5, 0.0, 0.0], [0.1, 0.6, 0.0], [-0.15, 0.2, 20.0]],          # very anisotropic
     [[2.0, 0.3, -0.2], [0.4, 2.5, 0.5], [-0.3, 0.2, 3.0]],           # general non-singular matrix
+    [[4.0, 0.0, 0.0], [1.0, 5.0, 0.0], [-1.0, 2.0, 6.0]],            # integer-valued
 ]
 FAR = (11, -13, 17)
 NPTS = 5
@@ -62,7 +63,7 @@ def frac_table(seed):
 
 def boxes(tier):
     if tier == 'thorough':
-        ortho = [list(e) for e in itertools.product(EDGES, repeat=3)]
+        ortho = [list(e) for e in itertools.product(EDGES, repeat=3)] + [[4.0, 1.0, 6.0]]
     else:
         ortho = QUICK_ORTHO
     return ([{'kind': 'ortho', 'm': np.diag(e).tolist()} for e in ortho] +
@@ -219,6 +220,7 @@ class C19(Check):
         whos = [case['who']] if 'who' in case else ('a', 'b')
         forms = [case['form']] if 'form' in case else ('box', 'inv')
         half = bool(np.any(np.abs((b_in - a0) @ inv_box) > 0.5))
+        integer_box = bool(np.all(box == np.round(box)))
         for n in shifts:
             n = list(n)
             sh = np.array(n, float) @ box
@@ -236,6 +238,20 @@ class C19(Check):
                         res[form] = both(sa, aa, sb, ab, form)
                     except Exception as exc:
                         res[form] = exc
+                # an integer-valued box handed over as an integer array / as nested lists of Python ints is the same box
+                if integer_box and not isinstance(res['box'], Exception) and (not any(n) or n == [1, -2, 3]):
+                    d = dict(case, n=n, who=who, form='box')
+                    for kind, bx in (('int-array', box.astype(np.int64)),
+                                     ('int-lists', [[int(x) for x in row] for row in box])):
+                        try:
+                            v = float(sa.distance_to(ab, box_vects=bx))
+                        except Exception as exc:
+                            R.violation(f'distance_to/{bname}/exception', d, f'{kind}: {exc!r}')
+                            continue
+                        R.case(dict(d, boxform=kind), nontrivial=True, cls=cls + '/integer-typed-box')
+                        if abs(v - res['box'][0]) > TOL:
+                            R.violation(f'distance_to/{bname}/integer-typed-box-differs', d,
+                                        f"{kind}: {v!r} vs float box {res['box'][0]!r}")
                 for form in forms:
                     d = dict(case, n=n, who=who, form=form)
                     if isinstance(res[form], Exception):
